@@ -484,8 +484,36 @@ impl<'r> Gen<'r> {
             ));
             self.locals.push((name, lt, is_const));
         }
-        match self.rng.below(6) {
+        match self.rng.below(7) {
             0 | 1 => out.push(self.tail(ty, depth)),
+            6 => {
+                // scoping: a declaration made DIRECTLY in a branch (no braces) or in a switch clause shadows an outer
+                // variable only inside that branch / the switch; the other branch and the code after it see the outer one
+                let name = self.fresh_local();
+                let outer = self.expr(ty, depth.min(1));
+                out.push(Stmt::Lexical(false, vec![Decl { name: name.clone(), ty: None, value: Some(outer) }]));
+                self.locals.push((name.clone(), ty, false));
+                let c = self.expr(Ty::Bool, depth.min(2));
+                let inner = self.expr(ty, depth.min(1));
+                let shadow = Stmt::Lexical(self.rng.chance(1, 2), vec![Decl { name: name.clone(), ty: None, value: Some(inner) }]);
+                match self.rng.below(3) {
+                    0 => {
+                        // if (c) let v = …; else return <uses outer v>;
+                        let r = self.expr(ty, depth.min(2));
+                        out.push(Stmt::If(c, Box::new(shadow), Some(Box::new(Stmt::Return(Some(r))))));
+                    }
+                    1 => {
+                        // if (c) return <uses outer v>; else let v = …;
+                        let r = self.expr(ty, depth.min(2));
+                        out.push(Stmt::If(c, Box::new(Stmt::Return(Some(r))), Some(Box::new(shadow))));
+                    }
+                    _ => {
+                        let sv = self.expr(Ty::Int, depth.min(1));
+                        out.push(Stmt::Switch(sv, vec![(Some(Expr::Int(0, "0".into())), vec![shadow, Stmt::Break(false)]), (None, vec![])]));
+                    }
+                }
+                out.push(Stmt::Return(Some(id(&name))));
+            }
             2 => {
                 // if / else
                 let c = self.expr(Ty::Bool, depth.min(2));
